@@ -72,6 +72,10 @@ pub fn dispatch(k: &str, t: &[&str]) -> Option<String> {
             }
             Some(out)
         }
+        "hex_flag" => {
+            let s = unsafe { String::from_utf8_unchecked(unhex(t[1])) };
+            Some(format!("{}", if t[0] == "lower" { is_lowercase_hex(&s) } else { is_uppercase_hex(&s) }))
+        }
         "colbuf_pushval" => {
             use crate::engine::data_types::EncodingType;
             use crate::mem_store::column::DataSource;
